@@ -518,3 +518,16 @@ def build_options(opt_spec, output_file):
         kw["terminal_psi"] = complex(tp["re"], tp["im"])
     kw["output_file"] = output_file
     return tdgl.SolverOptions(**kw)
+
+
+OPTION_DEFAULTS = {
+    "dt_init": 1e-6, "dt_max": 1e-1, "terminal_psi": 0.0, "adaptive_time_step_multiplier": 0.25, "screening_step_drag": 0.5,
+    "screening_step_size": 0.1, "screening_tolerance": 1e-3, "sparse_solver": "superlu", "gpu": False,
+}
+
+
+def apply_option_updates(options, updates):
+    for k, v in updates.items():
+        if isinstance(v, dict) and "re" in v:
+            v = complex(v["re"], v["im"])
+        setattr(options, k, v)
